@@ -27,8 +27,13 @@ int online[3], registered[2], fired[2], reg_agent[2], in_run_of = -1;
 int need[2][3];        /* need[b][i]: agent i was online when barrier b was registered and has not been in quiescent_state() / offline since */
 
 /* instrumented mutex (non-recursive): protocol assertions + balance */
-void vp_qs_lock(uint8_t *m) { struct S_struct_qmutex *q = (struct S_struct_qmutex *)m; VP_ASSERT(!q->f0, "lock() on a mutex the caller already holds (self-deadlock on a non-recursive mutex)"); q->f0 = 1; }
-void vp_qs_unlock(uint8_t *m) { struct S_struct_qmutex *q = (struct S_struct_qmutex *)m; VP_ASSERT(q->f0, "unlock() of a mutex that is not held"); q->f0 = 0; }
+int concurrent_phase;   /* while two threads run, lock() blocks (assume) instead of flagging a held mutex */
+void vp_qs_lock(uint8_t *m) { struct S_struct_qmutex *q = (struct S_struct_qmutex *)m;
+	__CPROVER_atomic_begin();
+	if(concurrent_phase) VP_ASSUME(!q->f0); else VP_ASSERT(!q->f0, "lock() on a mutex the caller already holds (self-deadlock on a non-recursive mutex)");
+	q->f0 = 1;
+	__CPROVER_atomic_end(); }
+void vp_qs_unlock(uint8_t *m) { struct S_struct_qmutex *q = (struct S_struct_qmutex *)m; __CPROVER_atomic_begin(); VP_ASSERT(q->f0, "unlock() of a mutex that is not held"); q->f0 = 0; __CPROVER_atomic_end(); }
 
 static int which(node_t *n) { return n == Nd[0] ? 0 : (NB > 1 && n == Nd[1]) ? 1 : -1; }
 void cb(node_t *n) {
@@ -42,8 +47,8 @@ void cb(node_t *n) {
 	for(int i = 0; i < NA; i++) VP_ASSERT(!need[b][i], "callback before an agent that was online at registration has been in quiescent_state() or gone offline (grace period not complete)");
 	free(n);      /* the owner may reclaim the node as soon as the callback starts */
 }
-static void after_call(void) { VP_ASSERT(D.f0.f0 == 0, "domain mutex still held after the call returned (unbalanced lock/unlock)"); }
-static void do_qs(int a) { agent_qs(ag(a)); for(int b = 0; b < NB; b++) need[b][a] = 0; after_call(); }
+static void after_call(void) { if(!concurrent_phase) VP_ASSERT(D.f0.f0 == 0, "domain mutex still held after the call returned (unbalanced lock/unlock)"); }
+static void do_qs(int a) { for(int b = 0; b < NB; b++) need[b][a] = 0; agent_qs(ag(a)); after_call(); }      /* ghost: "has been inside quiescent_state()" = entered it */
 static void do_run(int a) { in_run_of = a; agent_run(ag(a)); in_run_of = -1; after_call(); }
 static int pending_of(int a) { int p = 0; for(int b = 0; b < NB; b++) if(registered[b] && !fired[b] && reg_agent[b] == a) p = 1; return p; }
 
@@ -62,7 +67,7 @@ void harness(void) {
 			agent_await(ag(a), Nd[b]); registered[b] = 1; reg_agent[b] = a; for(int i = 0; i < NA; i++) need[b][i] = online[i]; after_call(); break;
 		case 2: do_run(a); break;
 		case 3: VP_PRE_OR(online[a] && !pending_of(a) && ag(a)->f2 == 0, continue);      /* offline(): not while this agent deferred a period (library TODO, asserted) */
-			agent_offline(ag(a)); online[a] = 0; for(int bb = 0; bb < NB; bb++) need[bb][a] = 0; after_call(); break;
+			for(int bb = 0; bb < NB; bb++) need[bb][a] = 0; agent_offline(ag(a)); online[a] = 0; after_call(); break;
 		case 4: VP_PRE_OR(!online[a], continue); agent_online(ag(a)); online[a] = 1; after_call(); break;
 		}
 		steps++;
@@ -92,4 +97,85 @@ void harness_barrier1(void) {
 	VP_ASSERT(D.f1.f0.f0 >= c0 + 2, "quiescent_barrier returned before two period advances");
 	after_call();
 	VP_WITNESS(0, "barrier returned");
+}
+
+/* ------------------------------------------------------------------------------------------------------------------
+ * fine-grained: a solver-chosen sequential prefix, then TWO agents perform one operation each CONCURRENTLY (all
+ * interleavings of their atomic accesses and lock operations), then a solver-chosen sequential suffix.
+ *  -DNON=<agents initially online> -DK1=<prefix> -DK2=<suffix>
+ * Ghost rules for the concurrent pair are lenient (never stricter than the property): a quiescent_state()/offline()
+ * concurrent with a registration counts as "since", a concurrently joining agent is not required to quiesce. */
+#ifndef K1
+#define K1 3
+#endif
+#ifndef K2
+#define K2 3
+#endif
+#ifndef NON
+#define NON NA
+#endif
+int pa[2], pop[2], pb[2], done1;
+static int op_pre(int a, int op, int b) {
+	switch(op) {
+	case 0: return online[a];
+	case 1: return online[a] && !registered[b];
+	case 2: return 1;
+	case 3: return online[a] && !pending_of(a) && ag(a)->f2 == 0;
+	case 4: return !online[a];
+	}
+	return 0;
+}
+static void op_do(int a, int op, int b, int other_a, int other_op) {
+	switch(op) {
+	case 0: do_qs(a); break;
+	case 1: registered[b] = 1; reg_agent[b] = a;
+		for(int i = 0; i < NA; i++) need[b][i] = online[i] && !(i == other_a && (other_op == 0 || other_op == 3));
+		agent_await(ag(a), Nd[b]); after_call(); break;
+	case 2: do_run(a); break;
+	case 3: for(int bb = 0; bb < NB; bb++) need[bb][a] = 0; agent_offline(ag(a)); online[a] = 0; after_call(); break;
+	case 4: agent_online(ag(a)); online[a] = 1; after_call(); break;
+	}
+}
+/* the second thread only performs operations that store no pointers (quiescent_state / offline / online): CBMC's concurrency
+ * encoding rejects pointer-typed shared variables written by one thread and read by another ("pointer handling for concurrency is
+ * unsound"), and await_barrier/run link and unlink list nodes.  Those two run in the first thread of the pair only. */
+static void thread1(void) {
+	int a = pa[1], op = pop[1];
+	if(op == 0) do_qs(a);
+	else if(op == 3) { for(int bb = 0; bb < NB; bb++) need[bb][a] = 0; agent_offline(ag(a)); online[a] = 0; }
+	else if(op == 4) { agent_online(ag(a)); online[a] = 1; }
+	__CPROVER_atomic_begin(); done1 = 1; __CPROVER_atomic_end(); }
+static void seq_steps(int n) {
+	for(int step = 0; step < n; step++) {
+		int a, op, b; VP_INPUT(a); VP_INPUT(op); VP_INPUT(b);
+		VP_ASSUME(a >= 0 && a < NA && op >= 0 && op < 5 && b >= 0 && b < NB);
+		VP_ASSUME(op_pre(a, op, b));
+		op_do(a, op, b, -1, -1);
+	}
+}
+void harness_fine(void) {
+	dom_init(&D);
+	for(int i = 0; i < NA; i++) { agent_init(ag(i), &D); online[i] = 1; if(i >= NON) { agent_offline(ag(i)); online[i] = 0; } }
+	for(int b = 0; b < NB; b++) { Nd[b] = (node_t *)malloc(sizeof(node_t)); VP_ASSUME(Nd[b] != 0); node_init(Nd[b], (fnptr_0)cb); }
+	seq_steps(K1);
+	for(int t = 0; t < 2; t++) { VP_INPUT(pa[t]); VP_INPUT(pop[t]); VP_INPUT(pb[t]); VP_ASSUME(pa[t] >= 0 && pa[t] < NA && pop[t] >= 0 && pop[t] < 5 && pb[t] >= 0 && pb[t] < NB); VP_ASSUME(op_pre(pa[t], pop[t], pb[t])); }
+	VP_ASSUME(pop[1] == 0 || pop[1] == 3 || pop[1] == 4);
+	VP_ASSUME(pa[0] != pa[1]);                                   /* two different agents (an agent object is used by one thread at a time) */
+	VP_ASSUME(!(pop[0] == 1 && pop[1] == 1 && pb[0] == pb[1]));  /* not the same node registered twice */
+#ifdef PAIR_OPS      /* optional pinning of the concurrent pair: -DPAIR_OPS=op0*10+op1 */
+	VP_ASSUME(pop[0] * 10 + pop[1] == PAIR_OPS);
+#endif
+	concurrent_phase = 1;
+#ifndef VP_NATIVE
+__CPROVER_ASYNC_1: thread1();
+#else
+	thread1();
+#endif
+	op_do(pa[0], pop[0], pb[0], pa[1], pop[1]);
+	VP_ASSUME(done1);
+	concurrent_phase = 0;
+	VP_ASSERT(D.f0.f0 == 0, "domain mutex still held after both concurrent calls returned");
+	seq_steps(K2);
+	VP_WITNESS(!fired[0], "the callback can fire after a concurrent pair");
+	VP_WITNESS(0, "end of the fine-grained schedule");
 }
